@@ -27,10 +27,10 @@ type Write struct {
 // Target renders "Type.field" or "global name".
 func (w *Write) Target() string {
 	if w.Global != nil {
-		return "global " + w.Global.Name()
+		return "global " + N(w.Global)
 	}
 	if w.Owner != nil && w.Field != nil {
-		return w.Owner.Obj().Name() + "." + w.Field.Name()
+		return N(w.Owner.Obj()) + "." + N(w.Field)
 	}
 	return w.Desc
 }
@@ -141,7 +141,7 @@ func WritesIn(fn *ssa.Function) []*Write {
 				add(w)
 			}
 		case *ssa.Call:
-			if b, ok := x.Call.Value.(*ssa.Builtin); ok && b.Name() == "delete" && len(x.Call.Args) > 0 {
+			if b, ok := x.Call.Value.(*ssa.Builtin); ok && N(b) == "delete" && len(x.Call.Args) > 0 {
 				for _, w := range mapWrites(in, x.Call.Args[0], "delete") {
 					add(w)
 				}
@@ -149,7 +149,7 @@ func WritesIn(fn *ssa.Function) []*Write {
 			}
 			// container/list mutators on a list held in a struct field
 			if callee := x.Call.StaticCallee(); callee != nil && callee.Pkg != nil && callee.Pkg.Pkg.Path() == "container/list" {
-				switch callee.Name() {
+				switch N(callee) {
 				case "PushFront", "PushBack", "Remove", "MoveToFront", "MoveToBack", "InsertBefore", "InsertAfter", "Init", "MoveBefore", "MoveAfter", "PushBackList", "PushFrontList":
 					if len(x.Call.Args) > 0 {
 						for _, o := range Origins(x.Call.Args[0]) {
@@ -157,7 +157,7 @@ func WritesIn(fn *ssa.Function) []*Write {
 								if fa, _ := fieldRoot(u.X); fa != nil {
 									owner, f := ownerOf(fa)
 									if owner != nil {
-										add(&Write{In: in, Kind: "list", Owner: owner, Field: f, Fresh: allFresh(rootObject(fa)), Desc: callee.Name()})
+										add(&Write{In: in, Kind: "list", Owner: owner, Field: f, Fresh: allFresh(rootObject(fa)), Desc: N(callee)})
 									}
 								}
 							}
@@ -237,12 +237,12 @@ func LockOf(fn *ssa.Function) *LockInfo {
 			return
 		}
 		owner, f := ownerOf(fa)
-		switch callee.Name() {
+		switch N(callee) {
 		case "Lock", "RLock":
 			if _, isCall := in.(*ssa.Call); isCall {
 				nlocks++
 				if li == nil {
-					li = &LockInfo{Fn: fn, Lock: in, Owner: owner, Field: f, Shared: callee.Name() == "RLock"}
+					li = &LockInfo{Fn: fn, Lock: in, Owner: owner, Field: f, Shared: N(callee) == "RLock"}
 				}
 			}
 		case "Unlock", "RUnlock":
@@ -452,6 +452,6 @@ func IsPkgInit(fn *ssa.Function) bool {
 	if fn.Parent() != nil || fn.Signature.Recv() != nil {
 		return false
 	}
-	n := fn.Name()
+	n := N(fn)
 	return n == "init" || (len(n) > 5 && n[:5] == "init#")
 }
